@@ -530,6 +530,53 @@ Proof.
   unfold inv, wf, buffered in *. destruct (r_st r) as [acc|need buf|]; lia.
 Qed.
 
+(* ---------- a running reader has taken everything that was offered ---------- *)
+
+Lemma iter_done_alive r chunk r' o : wf r -> iter r chunk = Done r' o -> r_st r' <> RDead ->
+  r_consumed r' = r_consumed r + len chunk.
+Proof.
+  destruct r as [[acc|need buf|] c0]; unfold wf, Frame.iter; cbv beta iota delta [r_st r_consumed]; intros W.
+  - remember (8 - len acc) as k eqn:Hk.
+    pose proof (len_takeN k chunk) as Lh.
+    destruct (len (acc ++ takeN k chunk) <? 8) eqn:E.
+    + rewrite len_app in E. intros H _. injection H as <- <-. cbv beta iota delta [r_consumed]. lia.
+    + destruct (checked_frame_length _ max).
+      * intros H A. injection H as <- <-. exfalso. apply A. reflexivity.
+      * destruct (de _ =? 0); [|discriminate]. destruct (valid []); [discriminate|].
+        intros H A. injection H as <- <-. exfalso. apply A. reflexivity.
+  - remember (need - len buf) as k eqn:Hk.
+    pose proof (len_takeN k chunk) as Lh.
+    destruct (len (buf ++ takeN k chunk) <? need) eqn:E.
+    + rewrite len_app in E. intros H _. injection H as <- <-. cbv beta iota delta [r_consumed]. lia.
+    + destruct (valid _); [discriminate|]. intros H A. injection H as <- <-. exfalso. apply A. reflexivity.
+  - intros H A. injection H as <- <-. exfalso. apply A. reflexivity.
+Qed.
+
+Lemma feed_consumes_all r c : wf r -> r_st (fst (feed r c)) <> RDead ->
+  r_consumed (fst (feed r c)) = r_consumed r + len c.
+Proof.
+  remember (length c) as n eqn:Hn. revert r c Hn.
+  induction n as [n IH] using lt_wf_ind. intros r c Hn W.
+  destruct c as [|x c]; [rewrite feed_nil; cbn [fst]; rewrite len_nil; lia|].
+  rewrite feed_unfold by assumption.
+  destruct (iter r (x :: c)) as [r' o|r' o rest] eqn:E.
+  - cbn [fst]. intros A. eapply iter_done_alive; eauto.
+  - apply iter_more in E as (W' & L & Hc); auto.
+    assert (Hlt : (length rest < n)%nat) by (unfold len in L; lia).
+    specialize (IH (length rest) Hlt r' rest eq_refl W').
+    destruct (feed r' rest) as [r2 o2]. cbn [fst] in *. intros A. rewrite (IH A). lia.
+Qed.
+
+(* as long as no error occurred the reader has consumed every byte it was given:
+   it never stalls on input it could have used (and, by buffer_bound, never reads ahead) *)
+Theorem reader_consumes_all chunks :
+  r_st (fst (feed_all init chunks)) <> RDead ->
+  r_consumed (fst (feed_all init chunks)) = len (concat chunks).
+Proof.
+  rewrite (fragmentation _ _ eq_refl). intros A.
+  rewrite (feed_consumes_all init (concat chunks) wf_init A). reflexivity.
+Qed.
+
 (* ---------- the reader refines the one-shot parse of the stream ---------- *)
 
 Lemma split_at (n : N) (l : list N) : n <= len l ->
